@@ -191,6 +191,25 @@ def step (d : D) (t : List String) : D × String :=
       let (f, s) := WriteSnapshot d.params.cap d.st sn sg
       ({ d with st := s }, failStr f)
     | none => (d, "bad-op")
+  | "kvalidate" :: rest =>
+    match rest.reverse with
+    | fin :: revSnap =>
+      match parseSnap revSnap.reverse, parseBool fin with
+      | some (sn, _), some finalized =>
+        match allSome (sn.txs.map (aget d.pool)) with
+        | some members =>
+          let (f, s) := kernelValidate d.params sn.id (decide (sn.txs.length > 1)) finalized members d.st
+          ({ d with st := s }, match f with | none => "ok" | some .err => "reject" | some .panic => "panic")
+        | none => (d, "bad-op")
+      | _, _ => (d, "bad-op")
+    | [] => (d, "bad-op")
+  | "ksnap" :: rest =>
+    -- TopoWrite: WriteSnapshot, and a panic on an error as well
+    match parseSnap rest with
+    | some (sn, sg) =>
+      let (f, s) := WriteSnapshot d.params.cap d.st sn sg
+      ({ d with st := s }, match f with | none => "ok" | some _ => "crash")
+    | none => (d, "bad-op")
   | ["nop"] => (d, "skip")
   | ["admit", id, fork] =>
     match id.toNat?, parseBool fork with
